@@ -405,12 +405,23 @@ func (c *pathParser) addSeg(segString []byte) error {
 
 // addArcFromA adds a path of an arc element to the cursor path to the pathCursor
 func (c *pathParser) addArcFromA(points []Fl) {
-	ra, rb := float64(points[0]), float64(points[1])
+	// See https://www.w3.org/TR/SVG/implnote.html#ArcOutOfRangeParameters
+	if points[5] == c.currentX && points[6] == c.currentY {
+		// identical end points: the segment is omitted
+		return
+	}
+	ra, rb := math.Abs(float64(points[0])), math.Abs(float64(points[1]))
+	if ra == 0 || rb == 0 {
+		// a zero radius: straight line to the end point
+		c.lineTo(points[5], points[6])
+		c.currentX, c.currentY = points[5], points[6]
+		return
+	}
 	cx, cy := findEllipseCenter(&ra, &rb, float64(points[2])*math.Pi/180, float64(c.currentX),
 		float64(c.currentY), float64(points[5]), float64(points[6]), points[4] == 0, points[3] == 0)
 	points[0], points[1] = Fl(ra), Fl(rb)
 
-	c.currentX, c.currentY = c.addArc(c.points, Fl(cx), Fl(cy), c.currentX, c.currentY)
+	c.currentX, c.currentY = c.addArc(points, Fl(cx), Fl(cy), c.currentX, c.currentY)
 }
 
 // addArc adds an arc to the adder p
